@@ -29,10 +29,13 @@ vars == <<form, k, rs, n, pc>>
 
 CondForms  == {"and_chain", "or_chain", "map_group", "seq_group", "not1",
                "all_seq", "of_seq", "all_map", "of_map", "mx_not", "nest_and",
-               "nall_seq", "nof_seq", "nall_map", "nof_map"}       \* a quantifier under `not`
+               "nall_seq", "nof_seq", "nall_map", "nof_map",       \* a quantifier under `not`
+               "seq_same", "or_same", "and_same", "of_same",       \* every operand on ONE field
+               "not_cmp"}                                          \* a negated ordering comparison
 KeyForms   == {"klist", "kall", "kof", "klist_mix", "kall_mix", "kof_mix", "knot"}
 Forms == CondForms \cup KeyForms
-Thresholded == {"of_seq", "of_map", "kof", "kof_mix", "nof_seq", "nof_map"}
+Thresholded == {"of_seq", "of_map", "kof", "kof_mix", "nof_seq", "nof_map", "of_same"}
+SameForms == {"seq_same", "or_same", "and_same", "of_same"}
 
 X == <<120>>    \* "x"
 Y == <<121>>    \* "y"
@@ -45,8 +48,9 @@ Init == /\ pc = "start"
         /\ form \in Forms
         /\ k \in 1..MaxK
         /\ rs \in Vectors(form, k)
-        /\ n \in (IF form \in Thresholded THEN 0..(k + 1) ELSE IF form = "mx_not" THEN 0..2 ELSE {0})
+        /\ n \in (IF form \in Thresholded THEN 0..(k + 1) ELSE IF form \in {"mx_not", "not_cmp"} THEN 0..2 ELSE {0})
         /\ (form = "not1" => k = 1)
+        /\ (form = "not_cmp" => k <= 2 /\ Len(rs) = k /\ \A i \in 2..k : rs[i] = "T")
         /\ (form \in KeyForms => k >= 2)
 
 Next == pc = "start" /\ pc' = "done" /\ UNCHANGED <<form, k, rs, n>>
@@ -59,6 +63,19 @@ AtomIds == [i \in 1..k |-> <<IdN(i), Atom(i)>>]
 AtomDoc == OV(Flat([i \in 1..k |->
               IF rs[i] = "M" THEN <<>>
               ELSE << <<Fld(i), SV(IF rs[i] = "T" THEN X ELSE Y)>> >>]))
+
+(* *_same: all operands address the ONE field f0, which holds the number 5.  An operand that is  *)
+(* true is `str(f0): '5'` (odd positions) or `f0: 5`; one that is false is `str(f0): '7'` or       *)
+(* `f0: 7`; the third value stands for an un-cast text pattern `f0: 'x*'`, whose result on a      *)
+(* number the language leaves open (false or missing) - so whatever one operand does with the    *)
+(* field must not leak into its neighbours                                                        *)
+SameEnt(i) ==
+  CASE rs[i] = "T" -> (IF i % 2 = 1 THEN EntM("str", 0, Fld(0), ExactP(<<53>>)) ELSE Ent(Fld(0), NumV(MkInt(FALSE, <<5>>))))
+    [] rs[i] = "F" -> (IF i % 2 = 1 THEN EntM("str", 0, Fld(0), ExactP(<<55>>)) ELSE Ent(Fld(0), NumV(MkInt(FALSE, <<7>>))))
+    [] OTHER -> Ent(Fld(0), Pat("prefix", FALSE, X))
+SameAtom(i) == MapB(<<SameEnt(i)>>)
+SameIds == [i \in 1..k |-> <<IdN(i), SameAtom(i)>>]
+SameDoc == OV(<< <<Fld(0), IV(FALSE, <<5>>)>> >>)
 
 A == IdN(1)
 Letter(i) == <<96 + i>>
@@ -77,7 +94,17 @@ SrcFor(o) ==
     [] form = "or_chain"  -> Src(Chain("or", [i \in 1..k |-> Id(IdN(o[i]))]), AtomIds)
     [] form = "map_group" -> Src(Id(A), << <<A, MapB([i \in 1..k |-> Ent(Fld(o[i]), ExactP(X))])>> >>)
     [] form = "seq_group" -> Src(Id(A), << <<A, SeqB([i \in 1..k |-> Atom(o[i])])>> >>)
+    [] form = "seq_same"  -> Src(Id(A), << <<A, SeqB([i \in 1..k |-> SameAtom(o[i])])>> >>)
+    [] form = "of_same"   -> Src(OfC(A, n), << <<A, SeqB([i \in 1..k |-> SameAtom(o[i])])>> >>)
+    [] form = "or_same"   -> Src(Chain("or", [i \in 1..k |-> Id(IdN(o[i]))]), SameIds)
+    [] form = "and_same"  -> Src(Chain("and", [i \in 1..k |-> Id(IdN(o[i]))]), SameIds)
     [] form = "not1"      -> Src(NotC(Id(A)), << <<A, Atom(1)>> >>)
+    (* not_cmp: `not A` over `int(f0): '>1'` (n = 0), `not (int(f0) > 1)` in the condition (n = 1),   *)
+    (* `not(f0): '>1'` as a key (n = 2).  The operand is true on 5, missing on an absent field and    *)
+    (* FALSE on a value that is smaller (k = 2: 0) or NOT CONVERTIBLE (k = 1: the text "abc")         *)
+    [] form = "not_cmp"   -> IF n = 0 THEN Src(NotC(Id(A)), << <<A, MapB(<<EntM("int", 0, Fld(0), CmpV("gt", MkInt(FALSE, <<1>>)))>>)>> >>)
+                             ELSE IF n = 1 THEN Src(NotC(ParC(CmpC("gt", CastO("int", Fld(0)), ConstO(MkInt(FALSE, <<1>>))))), << <<A, Atom(1)>> >>)
+                             ELSE Src(Id(A), << <<A, MapB(<<EntM("not", 0, Fld(0), CmpV("gt", MkInt(FALSE, <<1>>)))>>)>> >>)
     [] form = "all_seq"   -> Src(AllC(A), << <<A, SeqB([i \in 1..k |-> Atom(o[i])])>> >>)
     [] form = "of_seq"    -> Src(OfC(A, n), << <<A, SeqB([i \in 1..k |-> Atom(o[i])])>> >>)
     [] form = "all_map"   -> Src(AllC(A), << <<A, MapB([i \in 1..k |-> Ent(Fld(o[i]), ExactP(X))])>> >>)
@@ -108,7 +135,9 @@ MxDoc == OV(AtomDoc.kv \o (IF n = 2 THEN <<>> ELSE << <<Fld(9), SV(IF n = 0 THEN
 NestElem(v) == OV(Flat([i \in 1..k |-> IF v[i] = "M" THEN <<>> ELSE << <<Letter(i), SV(IF v[i] = "T" THEN X ELSE Y)>> >>]))
 Rev(v) == [i \in 1..k |-> v[k + 1 - i]]
 NestDoc == OV(<< <<(<<112>>), AV(<<NestElem(rs), NestElem(Rev(rs))>>)>> >>)
-CaseDoc == IF form \in KeyForms THEN KeyDoc ELSE IF form = "mx_not" THEN MxDoc
+CmpDoc == IF rs[1] = "M" THEN OV(<<>>)
+          ELSE OV(<< <<Fld(0), IF rs[1] = "T" THEN IV(FALSE, <<5>>) ELSE IF k = 2 THEN IV(FALSE, <<0>>) ELSE SV(<<97, 98, 99>>)>> >>)
+CaseDoc == IF form = "not_cmp" THEN CmpDoc ELSE IF form \in KeyForms THEN KeyDoc ELSE IF form \in SameForms THEN SameDoc ELSE IF form = "mx_not" THEN MxDoc
            ELSE IF form = "nest_and" THEN NestDoc ELSE AtomDoc
 
 -----------------------------------------------------------------------------
@@ -121,8 +150,8 @@ Adm ==
     [] form \in {"all_seq", "all_map", "kall", "kall_mix"} -> AllAdm(rs)
     [] form \in {"nall_seq", "nall_map"} -> NotS(AllAdm(rs))
     [] form \in {"nof_seq", "nof_map"} -> NotS(OfAdm(n, rs))
-    [] form \in Thresholded -> OfAdm(n, rs)
-    [] form \in {"mx_not", "nest_and"} -> LangEval(CaseSrc, CaseDoc)      \* no abstract vector form
+    [] form \in {"mx_not", "nest_and", "not_cmp"} \cup SameForms -> LangEval(CaseSrc, CaseDoc)
+    [] form \in Thresholded -> OfAdm(n, rs)      \* no abstract vector form
 
 (* the solver's loops on the abstract vector (engine layer of TauTri) *)
 RECURSIVE FoldAnd2(_), FoldOr2(_)
@@ -164,6 +193,7 @@ Eng ==
                              ELSE IF rs[1] = "M" THEN "M" ELSE IF Trues(rs) >= n THEN "T" ELSE "F"
     [] form = "mx_not"    -> CHOOSE r \in LangEval(CaseSrc, CaseDoc) : TRUE
     [] form = "nest_and"  -> CHOOSE r \in LangEval(CaseSrc, CaseDoc) : TRUE
+    [] form \in SameForms \cup {"not_cmp"} -> CHOOSE r \in LangEval(CaseSrc, CaseDoc) : TRUE
     [] form = "klist_mix" -> EngOrGroup(MixGroup)
     [] form = "kall_mix"  -> EngAllGroup(MixGroup)
     [] form = "kof_mix"   -> EngOfGroup(n, MixGroup)
@@ -172,7 +202,7 @@ Eng ==
 (* level, on the solver's loops and on the language layer), except under a negation or none-of  *)
 Perms == {p \in [1..k -> 1..k] : \A i, j \in 1..k : i # j => p[i] # p[j]}
 Permuted(p) == [i \in 1..k |-> rs[p[i]]]
-Commutative == form \notin {"not1", "knot", "mx_not", "nall_seq", "nof_seq", "nall_map", "nof_map"}
+Commutative == form \notin {"not1", "knot", "mx_not", "not_cmp", "nall_seq", "nof_seq", "nall_map", "nof_map"}
                /\ ~(form \in Thresholded /\ n = 0)
 OrderFree ==
   \A p \in Perms :
